@@ -446,3 +446,15 @@ Proof.
   destruct (Hc _ p _ (valid_unit c Vc) Up (valid_radius_ok c Vc Ec) Hp) as [_ [_ R]]. exact R.
 Qed.
 End UnderH.
+
+(** * FINDING: "all results are valid values" is false of Cap.Union as it is — two valid caps
+    with nearly antipodal centres and a subnormal coordinate: the tangent used by
+    InterpolateAtDistance has a squared norm that underflows to 0, the division gives Inf and
+    the centre of the union is NaN. *)
+Lemma cap_union_valid_refuted : exists a b,
+  s2_Cap_IsValid a = true /\ s2_Cap_IsValid b = true /\ s2_Cap_IsValid (s2_Cap_Union a b) = false.
+Proof.
+  exists (mk_s2_Cap (mk_s2_Point (mk_r3_Vector (-0x1.0000000000003p+0)%float 0%float (-0x0.0000000000001p-1022)%float)) (0x1.0000000000001p+1)%float),
+         (mk_s2_Cap (mk_s2_Point (mk_r3_Vector (0x1.0000000000006p+0)%float 0%float 0%float)) 1%float).
+  vm_compute. repeat split; reflexivity.
+Qed.
